@@ -13,6 +13,32 @@ class SymVersion:
     def __init__(self, comps):
         self.comps = list(comps)     # ints / SymInt
 
+    # the public attributes of packaging.version.Version that make sense for plain releases
+    @property
+    def release(self):
+        return tuple(self.comps)
+
+    @property
+    def major(self):
+        return self.comps[0] if len(self.comps) > 0 else 0
+
+    @property
+    def minor(self):
+        return self.comps[1] if len(self.comps) > 1 else 0
+
+    @property
+    def micro(self):
+        return self.comps[2] if len(self.comps) > 2 else 0
+
+    @property
+    def base_version(self):
+        return str(self)
+
+    public = base_version
+    is_prerelease = is_postrelease = is_devrelease = False
+    epoch = 0
+    local = pre = post = dev = None
+
     def _terms(self, n):
         out = []
         for i in range(n):
